@@ -7,5 +7,8 @@ CONSTANTS
  DevVolOverwritten = FALSE
  DevUserRegen = TRUE
  DevRecentre = FALSE
+ DevKeySites = FALSE
+ DevProcForgets = FALSE
+ LargeN = 16
 INVARIANT UserTemplateWins
 CHECK_DEADLOCK FALSE
